@@ -60,9 +60,12 @@ MStep ==
           /\ live' = FALSE /\ UNCHANGED <<S, total>> /\ good' = good + 1
         ELSE
           /\ UNCHANGED <<total, good>>
-          /\ CASE e.ev = "CallStart" ->
+          /\ CASE e.ev = "CallStart" /\ e.c \in Callers ->
                     /\ S' = F_CallStart(S, e.c, e.dl)
-                    /\ live' = Say(e.c \in Callers /\ S.call[e.c].st = "idle", "call number reused", e.c)
+                    /\ live' = Say(S.call[e.c].st = "idle", "call number reused", e.c)
+               [] e.ev = "CallStart" /\ e.c \notin Callers ->
+                    \* a burst scenario with more calls than this replay is configured for: not judged here
+                    /\ UNCHANGED S /\ live' = FALSE
                [] e.ev = "PollEnd" /\ e.who = "d" ->
                     LET s1 == DRun(D_Begin(S), 3000)
                         s2 == IF s1.dstate = "done" THEN DropDispatch(s1) ELSE s1
